@@ -1369,7 +1369,8 @@ impl TryFrom<&str> for AddressAssignment {
 
         if let Some(cap) = DIRECT_ADDRESS.captures(value) {
             let location_prefix = LocationPrefix::try_from(&cap[1])?;
-            let size_prefix = SizePrefix::try_from(&cap[2])?;
+            // The size prefix is optional so the group does not always participate
+            let size_prefix = SizePrefix::try_from(cap.get(2).map_or("", |m| m.as_str()))?;
             let pos: Vec<u32> = cap[3]
                 .split('.')
                 .map(|v| v.parse::<u32>().unwrap())
